@@ -139,15 +139,27 @@ pub struct Hinted<I> {
     pub inner: I,
     pub remaining: usize,
     pub hint: Hint,
+    /// the iterator is deliberately NOT fused: polled again after it returned None, it yields
+    /// poison pairs (ids >= POISON_ID). The outcome of extend / from_iter may depend only on the
+    /// pairs yielded up to the first None, so poison in the result is a defect.
+    pub done: bool,
+    pub poison: u32,
 }
+pub const POISON_ID: u32 = 3_500_000;
 pub const HUGE_UPPER: [usize; 4] = [1usize << 62, isize::MAX as usize, usize::MAX - 1, usize::MAX];
-impl<I: Iterator> Iterator for Hinted<I> {
-    type Item = I::Item;
-    fn next(&mut self) -> Option<I::Item> {
+impl<I: Iterator<Item = (Key, Prio)>> Iterator for Hinted<I> {
+    type Item = (Key, Prio);
+    fn next(&mut self) -> Option<(Key, Prio)> {
         tick(FaultKind::Feed);
+        if self.done {
+            self.poison += 1;
+            return Some((Key::new(POISON_ID + self.poison, 0), Prio::new(i64::MAX - self.poison as i64)));
+        }
         let r = self.inner.next();
         if r.is_some() {
             self.remaining -= 1;
+        } else {
+            self.done = true;
         }
         r
     }
@@ -169,6 +181,8 @@ pub fn hinted(pairs: &[(u32, u32, i64)], hint: Hint) -> Hinted<impl Iterator<Ite
         inner: pairs.iter().map(|&(id, tag, p)| (Key::new(id, tag), Prio::new(p))),
         remaining: pairs.len(),
         hint,
+        done: false,
+        poison: 0,
     }
 }
 
@@ -193,8 +207,8 @@ impl<'c, Q: Queue> Interp<'c, Q> {
                     || (matches!(op, "extend" | "append" | "from_vec" | "from_iter" | "convert" | "ctor")
                         && g != Group::Tables)
             }
-            8 => (matches!(op, "retain" | "retain_mut" | "iter_mut" | "pop_if") && !matches!(g, Group::Tables | Group::IterMutContract)) || (op == "adaptor_iter_mut" && matches!(g, Group::Alias | Group::Panic)),
-            9 => matches!(g, Group::Alias | Group::IterMutContract) || (g == Group::Panic && matches!(op, "iter_mut" | "adaptor_iter_mut")),
+            8 => (matches!(op, "retain" | "retain_mut" | "iter_mut" | "iter_mut_late_write" | "pop_if") && !matches!(g, Group::Tables | Group::IterMutContract)) || (op == "adaptor_iter_mut" && matches!(g, Group::Alias | Group::Panic)),
+            9 => matches!(g, Group::Alias | Group::IterMutContract) || (g == Group::Panic && matches!(op, "iter_mut" | "iter_mut_late_write" | "adaptor_iter_mut")),
             11 => matches!(op, "push_increase" | "push_decrease") && g != Group::Tables,
             12 => g == Group::Tag,
             13 => {
